@@ -32,6 +32,15 @@ def values(rng, n, kind):
         return [math.ldexp(rng.uniform(0.5, 1), rng.randint(-60, 60)) * rng.choice([1, 1, -1]) for _ in range(n)]
     if kind == "sparse":
         return [float(rng.randrange(1, 50)) if rng.random() < 0.2 else 0.0 for _ in range(n)]
+    if kind == "ws-top-byte":
+        # doubles whose most significant byte (the LAST byte of a little-endian npy file when the value is last) is ASCII whitespace
+        tops = [0x20, 0x09, 0x0A, 0x0B, 0x0C, 0x0D]
+        vals = [rng.uniform(0, 100) for _ in range(n)]
+        for j in range(max(1, n // 4)):
+            b = bytes(rng.randrange(256) for _ in range(7)) + bytes([rng.choice(tops)])
+            vals[rng.randrange(n)] = struct.unpack("<d", b)[0]
+        vals[-1] = struct.unpack("<d", bytes(rng.randrange(256) for _ in range(7)) + bytes([rng.choice(tops)]))[0]
+        return vals
     if kind == "special":
         return [rng.choice(SPECIAL) if rng.random() < 0.5 else rng.uniform(-10, 10) for _ in range(n)]
     raise ValueError(kind)
